@@ -90,7 +90,18 @@ func (sc *specCtx) eval(e SpecExpr) Value {
 			}
 			ls := flatten(t)
 			if len(ls) != 1 {
-				sc.errorf("quantified variable %s must be scalar", v.Name)
+				// a bound variable of a composite type: one bound SMT variable per leaf
+				val := Value{T: t, L: make([]Term, len(ls))}
+				for i, l := range ls {
+					sc.u.d.n++
+					val.L[i] = Term{fmt.Sprintf("%s!q%d", v.Name, sc.u.d.n), l.Sort}
+					vars = append(vars, val.L[i])
+				}
+				if old, ok := sc.bound[v.Name]; ok {
+					saved[v.Name] = old
+				}
+				sc.bound[v.Name] = val
+				continue
 			}
 			sc.u.d.n++
 			bsort := ls[0].Sort
